@@ -120,7 +120,15 @@ class IdealCentroid(nn.Module):
             else:
                 cm = torch.zeros((1, 1, H // self.stride, W // self.stride))
             outs.append(cm)
-        return torch.cat(outs, dim=0)
+        return _batch_stat(self, x, torch.cat(outs, dim=0))
+
+
+def _batch_stat(module, x, out):
+    """What a batch-statistic layer (BatchNorm) does to a network left in TRAIN mode: the output of every frame depends on
+    the whole batch.  In eval mode (where inference layers must put the network) the ideal maps are returned as they are."""
+    if module.training:
+        return out * (0.55 + 3.0 * float(x.float().mean()))
+    return out
 
 
 class IdealCentered(nn.Module):
@@ -149,7 +157,7 @@ class IdealCentered(nn.Module):
                         pts[k] = (cx, cy)
             cm = generate_confmaps(torch.from_numpy(pts).unsqueeze(0), img_hw=(H, W), sigma=self.sigma, output_stride=self.stride)
             outs.append(cm)
-        return torch.cat(outs, dim=0)
+        return _batch_stat(self, x, torch.cat(outs, dim=0))
 
 
 class IdealBottomUp(nn.Module):
